@@ -11,6 +11,9 @@
 // n), not their order; unique_if is given an equivalence relation (key equality), as std::unique requires.
 // Outside the claim: std::unordered_* sources (hashing), element types with non-trivial move semantics (covered by C05).
 //@property C16
+// "return exactly what the obvious loop returns" includes leaving a non-const lvalue argument unchanged: the algorithm
+// harnesses of C05 (instrumented elements, lvalue/rvalue variants) are decided again for C16
+//@import C05_seq.cpp only=^h_algorithm_
 #include "verif_api.h"
 #include <fcppt/loop.hpp>
 #include <fcppt/make_int_range_count.hpp>
